@@ -330,51 +330,93 @@ def check_trait_len(run, F):
     return 1
 
 
+def _eval_cond(c, L, I):
+    """truth of a canonical condition over the two lengths (None if it is not a comparison of
+    self.len(), iter.len() and literals)"""
+    neg = False
+    while c.startswith('!'):
+        neg = not neg
+        c = c[1:]
+    x = c.replace('self.len()', 'L').replace('iter.len()', 'I')
+    if not re.fullmatch(r'[\sLI0-9()<>=!]+', x):
+        return None
+    try:
+        v = bool(eval(x, {'__builtins__': {}}, {'L': L, 'I': I}))
+    except Exception:
+        return None
+    return (not v) if neg else v
+
+
 def check_write_trust_iter(run, F):
+    """write_trust_iter, decided on the order types of (0, 1, self.len(), iter.len()): which
+    write loop is reached and what is returned, for every pair of lengths in 0..4."""
     check_trait_len(run, F)
     fn = F.one('UninitRefMut::write_trust_iter')
     env = {b['local']: b['name'] for p in fn.params for b in _pat_binds(p)}
     rows = dtree.table(fn.hir, env)
-    want_eff = {
-        'elementwise': '(0..len).for_each(|i| self.uset(i, iter.next()))',
-    }
-    got = dtree.show(rows)
-    ok = True
+    # write sites: uset calls, their loop, and where the written item comes from
+    sites = []
+    for x in walk(fn.hir):
+        if x.get('k') == 'MethodCall' and callee_is(x, 'UninitRefMut::uset', 'UninitVec::uset'):
+            loop = None
+            for y in walk(fn.hir):
+                if y.get('k') == 'For' and any(z is x for z in walk(y['ch'][1])):
+                    loop = (y, peel(y['ch'][0]), y['ch'][1], [b['local'] for b in _pat_binds(y['pat'])])
+                if y.get('k') == 'MethodCall' and y['method'] == 'for_each' and \
+                        peel(y['ch'][1]).get('k') == 'Closure' and any(z is x for z in walk(y['ch'][1])):
+                    cl = peel(y['ch'][1])
+                    loop = (y, peel(y['ch'][0]), cl['ch'][0], [b['local'] for p in cl['params'] for b in _pat_binds(p)])
+            g = dtree.guards_at(fn.hir, loop[0] if loop else x, env)
+            kind = '?'
+            rng = None
+            if loop and g:
+                conds, en = g
+                rng = dtree.canon(loop[1], en)
+                idx = peel(x['ch'][1])
+                idx_ok = idx.get('k') == 'Path' and idx.get('local') in loop[3]
+                nxt_in = [z for z in walk(loop[2]) if z.get('k') == 'MethodCall' and callee_is(z, 'Iterator::next')]
+                nxt_all = [z for z in walk(fn.hir) if z.get('k') == 'MethodCall' and callee_is(z, 'Iterator::next')]
+                if idx_ok and len(nxt_in) == 1:
+                    kind = 'elementwise'
+                elif idx_ok and not nxt_in and len(nxt_all) - sum(
+                        1 for s2 in sites for _ in s2['nxt_in']) >= 1:
+                    kind = 'broadcast'
+                sites.append({'node': x, 'conds': dtree.simplify(frozenset(conds)) or frozenset({'false'}),
+                              'kind': kind, 'range': rng, 'nxt_in': nxt_in})
+            else:
+                sites.append({'node': x, 'conds': frozenset({'?'}), 'kind': '?', 'range': None, 'nxt_in': []})
     why = []
-    def has(conds_sub, leaf_pred, eff_pred):
-        for cs, leaf, ef in rows:
-            if set(conds_sub) <= set(cs) and leaf_pred(leaf) and eff_pred(ef):
-                return True
-        return False
-    LEN, ILEN = 'self.len()', 'iter.len()'
-    okv = lambda l: l.endswith('Ok(())')
-    c1 = has(['(0 == %s)' % LEN], okv, lambda ef: not any('uset' in e for e in ef))
-    c2 = has(['(0 != %s)' % LEN, '(%s == %s)' % (ILEN, LEN)], okv,
-             lambda ef: any('for_each' in e and 'self.uset(i, iter.next())' in e for e in ef))
-    c3 = has(['(0 != %s)' % LEN, '(%s != %s)' % (ILEN, LEN), '(1 == %s)' % ILEN], okv,
-             lambda ef: any('for_each' in e and 'self.uset(i, ' in e for e in ef))
-    fes = [x for x in walk(fn.hir) if x.get('k') == 'MethodCall' and x['method'] == 'for_each']
-    if len(fes) == 2:
-        nxt0 = [y for y in walk(peel(fes[0]['ch'][1])) if y.get('k') == 'MethodCall' and
-                callee_is(y, 'Iterator::next')]
-        nxt1 = [y for y in walk(peel(fes[1]['ch'][1])) if y.get('k') == 'MethodCall' and
-                callee_is(y, 'Iterator::next')]
-        cl1 = [y for y in walk(peel(fes[1]['ch'][1])) if y.get('k') == 'MethodCall' and
-               callee_is(y, 'Clone::clone')]
-        # element-wise arm pulls one item per slot; broadcast arm pulls once, outside the loop
-        c2 = c2 and len(nxt0) == 1
-        c3 = c3 and not nxt1 and len(cl1) == 1
-    else:
-        c2 = c3 = False
-    c4 = has(['(0 != %s)' % LEN, '(%s != %s)' % (ILEN, LEN), '(1 != %s)' % ILEN],
-             lambda l: l.startswith('Err(') or 'Err' in l, lambda ef: not any('uset' in e for e in ef))
-    ranges = [x for x in walk(fn.hir) if x.get('k') == 'Range']
-    r_ok = len(ranges) == 2 and all(src(r) == '0..len' for r in ranges) and \
-        'let len = self.len();' in src(fn.hir)
-    lens = 'self.len()' in src(fn.hir) and 'iter.len()' in src(fn.hir)
-    ok = c1 and c2 and c3 and c4 and r_ok and lens
+    r_ok = len(sites) == 2 and all(st['range'] == '0..self.len()' for st in sites)
+    if not r_ok:
+        why.append('write loops %s' % [(st['kind'], st['range']) for st in sites])
+    ok = r_ok
+    for L in range(5):
+        for I in range(5):
+            want_site = None if L == 0 else 'elementwise' if I == L else 'broadcast' if I == 1 else None
+            want_leaf = 'Ok' if (L == 0 or I == L or I == 1) else 'Err'
+            reached = []
+            for st in sites:
+                vals = [_eval_cond(c, L, I) for c in st['conds']]
+                if None in vals:
+                    ok = False
+                    why.append('unrecognised guard %s' % sorted(st['conds']))
+                    continue
+                if all(vals):
+                    reached.append(st['kind'])
+            got_rows = []
+            for cs, leaf, ef in rows:
+                vals = [_eval_cond(c, L, I) for c in cs]
+                if None in vals:
+                    ok = False
+                    why.append('unrecognised condition %s' % sorted(cs))
+                    continue
+                if all(vals):
+                    got_rows.append('Ok' if leaf.endswith('Ok(())') else 'Err' if 'Err(' in leaf else leaf[:20])
+            if reached != ([want_site] if want_site else []) or got_rows != [want_leaf]:
+                ok = False
+                why.append('len=%d iter=%d: writes %s (expected %s), returns %s (expected %s)'
+                           % (L, I, reached, want_site, got_rows, want_leaf))
     run.ob('TL.write', fn, 'decision tree', ok, fn.loc(),
-           'empty: %s; equal lengths -> element-wise: %s; single item -> broadcast: %s; '
-           'otherwise Err without writing: %s; index ranges 0..len: %s'
-           % (c1, c2, c3, c4, r_ok) + ('' if ok else '  table: %s' % got))
+           '25 length pairs: empty -> Ok without writing; equal -> element-wise over 0..len; one item '
+           '-> broadcast over 0..len; otherwise Err without writing' + ('' if ok else ' ; ' + '; '.join(why[:4])))
     return 1
